@@ -340,6 +340,13 @@ def model_cases(job, model):
             out.append({"kind": "diff", "tag": t, "a": A, "b": B})
             out.append({"kind": "diff", "tag": t, "a": B, "b": A})
         out.append({"kind": "rel", "a": A, "b": B})
+    if job.startswith("ymd_ord"):
+        # ymd_ord is reached through differences: the model's date (and its 400-year neighbours) against fixed dates
+        for yy in (g("y"), g("y") - 400, g("y") + 400, g("y") + 800):
+            for B in ([1970, 1, 1, 0, 0, 0], [yy, 3, 1, 0, 0, 0], [yy - 1, 12, 31, 0, 0, 0]):
+                for t in ("day", "hour", "second"):
+                    out.append({"kind": "diff", "tag": t, "a": [yy, g("m", 1), g("d", 1), 0, 0, 0], "b": B})
+                    out.append({"kind": "diff", "tag": t, "a": B, "b": [yy, g("m", 1), g("d", 1), 0, 0, 0]})
     if "v" in model:
         v = g("v"); a = g("a")
         # scale_add(v, f, a) is reached through difference(): hours = days*24 + dh etc.
@@ -355,6 +362,12 @@ def diff_probe_cases():
                      ([1970, 1, 1, 0, 0, 0], [1969, 12, 31, 23, 59, 59]), ([2000, 3, 1, 0, 0, 0], [1999, 2, 28, 23, 59, 59]),
                      ([400, 1, 1, 0, 0, 0], [-400, 12, 31, 0, 0, 0]), ([I64MAX, 1, 1, 0, 0, 0], [I64MAX - 292277022656 // 2, 1, 1, 0, 0, 0])):
             out.append({"kind": "diff", "tag": t, "a": A, "b": B}); out.append({"kind": "diff", "tag": t, "a": B, "b": A})
+    # every position of the 400-year cycle where the era arithmetic changes, both sides of zero, months around the leap day
+    for y in (-801, -800, -799, -401, -400, -399, -398, -1, 0, 1, 399, 400, 401, 799, 800, 801):
+        for m in (1, 2, 3, 12):
+            for t in ("day", "second"):
+                out.append({"kind": "diff", "tag": t, "a": [y, m, 1, 0, 0, 0], "b": [1970, 1, 1, 0, 0, 0]})
+                out.append({"kind": "diff", "tag": t, "a": [1970, 1, 1, 0, 0, 0], "b": [y, m, 28, 0, 0, 0]})
     return out
 
 def run(tier):
